@@ -276,12 +276,17 @@ BlockResponseVals == << <<>>, <<BD1>>, <<BD2, BD3>>, <<BD4, BD1, BD2>> >>
 (*   scale: the SCALE body Vec<Vec<u8>>  = Compact(n) then n times (Compact(1), fill)                       *)
 (*   pb:    the block response carrying one block (hash HB, no header) with that body:                      *)
 (*          key(1,2) varint(34 + 4n) [ key(1,2) 32 HB ] then n times [ key(3,2) 2 Compact(1) fill ]         *)
-BodyCountVals == << [n |-> 0, fill |-> 7], [n |-> 1, fill |-> 7], [n |-> 63, fill |-> 9], [n |-> 64, fill |-> 9], [n |-> 65, fill |-> 9],
-                    [n |-> 16383, fill |-> 5], [n |-> 16384, fill |-> 5], [n |-> 16385, fill |-> 5] >>
-CtBodyDesc(v) == [head |-> ScCompactInt(v.n), unit |-> <<4, v.fill>>, n |-> v.n, tail |-> <<>>]
+BodyCountVals == << [n |-> 0, fill |-> 7, len |-> 1], [n |-> 1, fill |-> 7, len |-> 1], [n |-> 63, fill |-> 9, len |-> 1],
+                    [n |-> 64, fill |-> 9, len |-> 1], [n |-> 65, fill |-> 9, len |-> 1],
+                    [n |-> 16383, fill |-> 5, len |-> 1], [n |-> 16384, fill |-> 5, len |-> 1], [n |-> 16385, fill |-> 5, len |-> 1],
+                    \* ... and bodies whose extrinsic LENGTH sits on the boundaries (the per-extrinsic compact prefix)
+                    [n |-> 2, fill |-> 3, len |-> 63], [n |-> 2, fill |-> 3, len |-> 64], [n |-> 2, fill |-> 3, len |-> 65],
+                    [n |-> 1, fill |-> 6, len |-> 16383], [n |-> 1, fill |-> 6, len |-> 16384], [n |-> 1, fill |-> 6, len |-> 16385] >>
+CtBodyUnit(v) == ScCompactInt(v.len) \o [i \in 1..v.len |-> v.fill]
+CtBodyDesc(v) == [head |-> ScCompactInt(v.n), unit |-> CtBodyUnit(v), n |-> v.n, tail |-> <<>>]
 CtBodyPbDesc(v) == [head |-> IF v.n = 0 THEN PbLenField(1, PbLenField(1, HB))
-                             ELSE PbKey(1, 2) \o PbVarint(BnFromInt(34 + 4 * v.n)) \o PbLenField(1, HB),
-                    unit |-> PbLenField(3, <<4, v.fill>>), n |-> v.n, tail |-> <<>>]
+                             ELSE PbKey(1, 2) \o PbVarint(BnFromInt(34 + v.n * Len(PbLenField(3, CtBodyUnit(v))))) \o PbLenField(1, HB),
+                    unit |-> PbLenField(3, CtBodyUnit(v)), n |-> v.n, tail |-> <<>>]
 CtExpand(d) == d.head \o [i \in 1..(d.n * Len(d.unit)) |-> d.unit[((i - 1) % Len(d.unit)) + 1]] \o d.tail
 CtVals(name) ==
   CASE name = "header" -> HeaderVals
@@ -415,11 +420,11 @@ CtBodyCountLaw(v) ==
   LET d == CtBodyDesc(v)
       q == CtBodyPbDesc(v)
       r == ScCompactDec(d.head, 4, "len")
-      body == [i \in 1..v.n |-> <<v.fill>>]
+      body == [i \in 1..v.n |-> [j \in 1..v.len |-> v.fill]]
   IN /\ r.ok /\ r.n = Len(d.head) /\ BnToInt(r.v) = v.n
      /\ Len(d.head) = (IF v.n < 64 THEN 1 ELSE IF v.n < 16384 THEN 2 ELSE 4)
      /\ \A w \in ScCompactWidened(BnFromInt(v.n)) : ~ScCompactDec(w, 4, "len").ok
-     /\ v.n <= 65 => /\ CtExpand(d) = ScEnc(CtBody, body)
+     /\ (v.n <= 65 /\ v.len <= 65) => /\ CtExpand(d) = ScEnc(CtBody, body)
                      /\ CtExpand(q) = CtBlockResponseEnc(<<[hash |-> HB, header |-> <<>>, body |-> body, receipt |-> <<>>, mq |-> <<>>, just |-> <<>>]>>)
                      /\ CtBlockResponseDec(CtExpand(q)).ok /\ CtBlockResponseDec(CtExpand(q)).v[1].body = body
 CtCaseLaw(o) ==
